@@ -5,6 +5,7 @@ Theorems about `Just.Run` (model of src/recipe.rs run_linewise / run_script).
 import Just.Model.Run
 import Just.Lemmas.RunSpec
 import Just.Lemmas.RunQuiet
+import Just.Lemmas.RunDry
 namespace Just.Props.C14
 open Just.Run
 
@@ -296,6 +297,30 @@ theorem quiet_changes_no_execution (P : Prog) (cfg : Cfg) (env : Env) (invs : Li
     (runMain P { cfg with quiet := true } env invs).2 = (runMain P cfg env invs).2
     ∧ noEcho (runMain P { cfg with quiet := true } env invs).1 = noEcho (runMain P cfg env invs).1 :=
   echo_switches_change_only_echo P cfg { cfg with quiet := true } env invs rfl rfl rfl
+
+/-- **What `--dry-run` prints is what a real run executes.**  The same command line with and without `--dry-run`
+(`DryOf`), a program whose recipes contain no backtick (a dry run shows a backtick as written, so values - and with
+them memo keys - may differ otherwise), children that all succeed, any confirmation answers: the two runs end with the
+same exit status, and the lines the dry run echoes, one after the other with their line ends (`dryText`), are exactly
+the texts of the commands and script files the real run starts, in the same order (`realText`) - for every program,
+every recipe graph, every command line.  (Proof: Lemmas/RunDry.lean, a simulation by induction on the runner's fuel.) -/
+theorem dry_run_matches_real (P : Prog) (cfgR cfgD : Cfg) (env : Env) (invs : List Key) (h : DryOf cfgR cfgD)
+    (hok : ∀ c, env.status c = .ok) (hP : ∀ r ∈ P.recipes, r.BtFree) :
+    (runMain P cfgD env invs).2 = (runMain P cfgR env invs).2
+    ∧ dryText (runMain P cfgD env invs).1 = realText (runMain P cfgR env invs).1 :=
+  runMain_rel2 h hok P hP invs
+
+/-- non-vacuity: the hypotheses are satisfiable and the texts are not empty -/
+example :
+    let r : Recipe := { params := [], priors := [], subs := [], body := [⟨false, false, [.lit "echo a"]⟩, ⟨true, true, [.lit "b"]⟩] }
+    let P : Prog := ⟨["date"], [r]⟩
+    let env : Env := ⟨fun _ => .ok, fun _ => "", fun _ => true⟩
+    dryText (runMain P { dryRun := true } env [(0, [])]).1 = "echo a\nb\n"
+      ∧ realText (runMain P {} env [(0, [])]).1 = "echo a\nb\n" := by
+  simp [runMain, runAssigns, runInvs, runRecipe, runDeps, bindParams, runBody, runLines, evalList, evalA, runCmd, echoes, concat,
+    Cfg.loquacious, dryText, realText, Status.toErr, countPrompts]
+
+example : DryOf {} { dryRun := true } := ⟨rfl, rfl, rfl, rfl, rfl⟩
 
 /-- and what is removed by `noEcho` is only echo: every other event survives, in order -/
 theorem noEcho_keeps_everything_else (es : List Ev) :
